@@ -1,4 +1,7 @@
 use crate::common::info;
+#[cfg(rfsm_verif)]
+use crate::verif_seams::lazy_static;
+#[cfg(not(rfsm_verif))]
 use lazy_static::lazy_static;
 use std::cell::RefCell;
 use std::collections::{HashMap, HashSet};
@@ -6,6 +9,9 @@ use std::fmt;
 use std::fmt::{Debug, Display, Formatter};
 use std::ops::DerefMut;
 use std::str::FromStr;
+#[cfg(rfsm_verif)]
+use crate::verif_seams::sync::{Arc, Mutex};
+#[cfg(not(rfsm_verif))]
 use std::sync::{Arc, Mutex};
 
 use crate::common::ArgOption;
